@@ -112,3 +112,136 @@ def outcome(fn, *args, **kw):
         return ('return', fn(*args, **kw))
     except Exception as e:   # noqa
         return ('raise', type(e).__name__, str(e))
+
+
+# ------------------------------------------------------------------ Unification (C06) twins
+def _is_var(f):
+    if type(f) is UnaryFeature:
+        return f.value == 'X'
+    return any(v.startswith('X') for _, v in (f.kv1, f.kv2, f.kv3))
+
+
+def _ign(f):
+    return type(f) is UnaryFeature and (f.value is None or f.value == 'nb')
+
+
+def compat(f, g):
+    """spec of feature compatibility (statement of C06)"""
+    if type(f) is UnaryFeature and type(g) is UnaryFeature:
+        return same(f, g) or _is_var(f) or _ign(f) or _is_var(g) or _ign(g)
+    if type(f) is TernaryFeature and type(g) is TernaryFeature:
+        if same(f, g):
+            return True
+        fk, gk = [k for k, _ in (f.kv1, f.kv2, f.kv3)], [k for k, _ in (g.kv1, g.kv2, g.kv3)]
+        if fk != gk:
+            return False
+        fv, gv = [v for _, v in (f.kv1, f.kv2, f.kv3)], [v for _, v in (g.kv1, g.kv2, g.kv3)]
+        dom = lambda a, b: all(x == y or x.startswith('X') for x, y in zip(a, b))
+        return dom(fv, gv) or dom(gv, fv)
+    return None   # mixed feature systems: outside the precondition
+
+
+def pattern_of(text):
+    """pattern text -> ('atom', v) | ('fun', l, slash, r) using an independent mini reader (patterns are bracketed texts of single letters)"""
+    toks = [t for t in __import__('re').split(r'([()/\\|])', text.replace(' ', '')) if t]
+    pos = 0
+
+    def operand():
+        nonlocal pos
+        if toks[pos] == '(':
+            pos += 1
+            e = expr()
+            assert toks[pos] == ')'
+            pos += 1
+            return e
+        v = toks[pos]
+        pos += 1
+        return ('atom', v)
+
+    def expr():
+        nonlocal pos
+        l = operand()
+        if pos < len(toks) and toks[pos] in '/\\|':
+            s = toks[pos]
+            pos += 1
+            r = operand()
+            return ('fun', l, s, r)
+        return l
+    e = expr()
+    assert pos == len(toks), text
+    return e
+
+
+def shape(p, t, binds):
+    if p[0] == 'atom':
+        binds.append((p[1], t))
+        return True
+    if is_atom(t):
+        return False
+    ps = p[2]
+    if not (ps == '|' or t.slash == ps or t.slash == '|'):
+        return False
+    return shape(p[1], t.left, binds) and shape(p[3], t.right, binds)
+
+
+def match_spec(px, py, x, y):
+    """(matches?, {var: last binding}, mixed?)  -- the statement of C06, executable"""
+    bx, by = [], []
+    if not shape(px, x, bx) or not shape(py, y, by):
+        return False, {}, False
+    last = {}
+    for v, t in bx + by:
+        if v in last and not same(strip(t), strip(last[v])):
+            return False, {}, False
+        last[v] = t
+    lx, ly = dict(bx), dict(by)
+    for v in lx:
+        if v in ly:
+            for f, g in zip(leaves(lx[v]), leaves(ly[v])):
+                c = compat(f, g)
+                if c is None:
+                    return None, {}, True
+                if not c:
+                    return False, {}, False
+    return True, last, False
+
+
+def check_unification(px_text, py_text, x, y):
+    """runs the real Unification and compares with the spec; returns a list of discrepancies"""
+    from depccg.unification import Unification
+    bad = []
+    px, py = pattern_of(px_text), pattern_of(py_text)
+    want, last, is_mixed = match_spec(px, py, x, y)
+    if is_mixed:
+        return bad
+    uni = Unification(px_text, py_text)
+    got = outcome(uni, x, y)
+    if got != ('return', want):
+        bad.append(('result', got, want))
+        return bad
+    again = outcome(uni, x, y)
+    if again[0] != 'raise' or again[1] != 'RuntimeError':
+        bad.append(('second call answered', again))
+    xy_feats = leaves(x) + leaves(y)
+    for v in sorted(set(last) | {'zz'}):
+        g = outcome(lambda: uni[v])
+        if not want:
+            if g[0] != 'raise' or g[1] != 'AssertionError':
+                bad.append(('binding readable after failure', v, g))
+            continue
+        if v not in last:
+            if g[0] != 'raise' or g[1] != 'KeyError':
+                bad.append(('unbound variable readable', v, g))
+            continue
+        if g[0] != 'return':
+            bad.append(('binding raises', v, g))
+            continue
+        b, t = g[1], last[v]
+        if not same(strip(b), strip(t)):
+            bad.append(('binding skeleton', v, b, t))
+            continue
+        for fb, ft in zip(leaves(b), leaves(t)):
+            if not same(fb, ft) and not (_is_var(ft) and member(fb, xy_feats)):
+                bad.append(('binding feature not from the inputs / non-variable feature replaced', v, b, t))
+                break
+    return bad
